@@ -286,7 +286,8 @@ Proof.
   destruct (read_var_i32 a_reader s) as [[n s1] | e | p | ];
     unfold good, goodP in H; try exact I.
   - destruct H as [_ Fr]. eapply goodP_frame; [exact Fr|].
-    destruct (n =? -1)%Z; [apply dec_unknown_good | apply dec_known_good]; assumption.
+    destruct (n =? -1)%Z; [apply dec_unknown_good; assumption |].
+    destruct (n <? 0)%Z; [exact I | apply dec_known_good; assumption].
   - destruct H.
 Qed.
 
